@@ -202,10 +202,20 @@ class C06(diffcheck.DiffProp):
     # -- the `sync` build: loom port + forced schedule on the real type (search engines) --
     def sync_engines(self):
         d = os.path.join(vlib.ROOT, "harness", "loom-c06")
+        tdir = os.path.join(vlib.TARGET, "loom-c06")
+        if vlib.REPO.rstrip("/") != "/repo":
+            # dev use (seeded changes in a scratch checkout): a copy whose path dependency points there
+            alt = os.path.join(vlib.TARGET, "alt_harness", "loom-c06")
+            shutil.rmtree(alt, ignore_errors=True)
+            shutil.copytree(d, alt, ignore=shutil.ignore_patterns("Cargo.lock", "target"))
+            toml = os.path.join(alt, "Cargo.toml")
+            text = open(toml).read().replace('"/repo/', '"%s/' % vlib.REPO.rstrip("/"))
+            open(toml, "w").write(text)
+            d, tdir = alt, os.path.join(vlib.TARGET, "alt-loom-c06")
         lock = os.path.join(d, "Cargo.lock")
         if not os.path.exists(lock):
-            shutil.copy(os.path.join(vlib.REPO, "Cargo.lock"), lock)
-        tdir = os.path.join(vlib.TARGET, "loom-c06")
+            src = os.path.join(vlib.REPO, "Cargo.lock")
+            shutil.copy(src if os.path.exists(src) else "/repo/Cargo.lock", lock)
         env = {"CARGO_TARGET_DIR": tdir, "RUSTFLAGS": "-Awarnings"}
         t0 = time.time()
         rc, out = vlib.sh(["cargo", "build", "--offline", "-q", "--bins"], 900, cwd=d, env=env)
